@@ -536,6 +536,11 @@ pub fn generate(profile_name: &str, seed: u64) -> Scenario {
         sc.profile = profile_name.to_string();
         return sc;
     }
+    if profile_name == "kill" && seed % 24 == 9 {
+        let mut sc = generate_heldsend(seed);
+        sc.profile = profile_name.to_string();
+        return sc;
+    }
     if (profile_name == "lifecycle" || profile_name == "kill") && seed % 16 == 5 {
         let mut sc = generate_pileup(seed);
         sc.profile = profile_name.to_string();
@@ -1247,6 +1252,61 @@ fn generate_stopcancel(seed: u64) -> Scenario {
         profile: "idle".to_string(),
         actors: vec![actor],
         clients: vec![ClientSpec { init: vec![Some(0), None, None, None], ops, drop_at_end: r.chance(50) }],
+        ngates: 1,
+        teardown: vec![*r.pick(&[Teardown::Stop, Teardown::Kill, Teardown::DropAll])],
+        sample_until: 41,
+        default_cap: 32,
+        fixed_timing: true,
+    }
+}
+
+/// A sender parked on a full mailbox is handed the slot the actor frees - but its task is busy elsewhere and does not poll
+/// the send again for a while. Then the actor is killed (or stopped, or orphaned). The reserved slot belongs to nobody the
+/// actor has to wait for: kill() takes effect at once.
+fn generate_heldsend(seed: u64) -> Scenario {
+    let mut r = Rng::new(seed ^ 0x4E1D);
+    let cap = *r.pick(&[1usize, 1, 2]);
+    let mut uid = 0u64;
+    let mut nu = || {
+        uid += 1;
+        uid
+    };
+    let mut ops0 = vec![];
+    ops0.push(ClientOp { pre: Pre::None, op: Op::CloneSlot { from: 0, to: 1 } });
+    ops0.push(ClientOp { pre: Pre::None, op: Op::Send { slot: 0, kind: SendKind::Tell, mty: MTy::U, body: Body { uid: nu(), flags: 0, steps: vec![Step::Gate(0)] } } });
+    for i in 0..cap {
+        ops0.push(ClientOp { pre: if i == 0 { Pre::Sleep(2) } else { Pre::None }, op: Op::Send { slot: 0, kind: SendKind::Tell, mty: MTy::U, body: Body::plain(nu()) } });
+    }
+    let hold = 2 * r.range(8, 14);
+    ops0.push(ClientOp { pre: Pre::None, op: Op::SendHeld { slot: 1, kind: if r.chance(70) { SendKind::Tell } else { SendKind::Ask }, body: Body::plain(nu()), hold } });
+    // the other client: lets the handler finish (the actor takes the next message and frees a slot), then ends the actor
+    let mut ops1 = vec![ClientOp { pre: Pre::Sleep(2 * r.range(2, 3)), op: Op::OpenGate(0) }];
+    let ender = match r.below(5) {
+        0 => Op::Stop { slot: 0 },
+        _ => Op::Kill { slot: 0 },
+    };
+    ops1.push(ClientOp { pre: if r.chance(50) { Pre::Sleep(2) } else { Pre::None }, op: ender });
+    if r.chance(40) {
+        ops1.push(ClientOp { pre: Pre::None, op: Op::Kill { slot: 0 } });
+    }
+    ops1.push(ClientOp { pre: Pre::Sleep(2), op: Op::ProbeAlive { slot: 0 } });
+    let actor = ActorSpec {
+        cap: Some(cap),
+        start: HookScript::default(),
+        run: if r.chance(40) { vec![RunStep { segs: vec![2 * r.range(1, 3)], steps: vec![], out: Out::True }; 4] } else { vec![] },
+        stop: HookScript { delay: if r.chance(40) { 2 } else { 0 }, steps: vec![], out: Out::Ok },
+        run_err_when_handled: None,
+        in_peers: false,
+    };
+    Scenario {
+        seed,
+        pert: 0,
+        profile: "kill".to_string(),
+        actors: vec![actor],
+        clients: vec![
+            ClientSpec { init: vec![Some(0), None, None, None], ops: ops0, drop_at_end: r.chance(50) },
+            ClientSpec { init: vec![Some(0), None, None, None], ops: ops1, drop_at_end: r.chance(50) },
+        ],
         ngates: 1,
         teardown: vec![*r.pick(&[Teardown::Stop, Teardown::Kill, Teardown::DropAll])],
         sample_until: 41,
